@@ -1,8 +1,301 @@
+//! Allocator monitor and drop monitor (C14).
+//!
+//! The global allocator forwards to the system allocator except inside a
+//! *measured region*, where it serves a resettable bump arena (deterministic
+//! addresses), fills fresh blocks with a pattern and snapshots every block at
+//! `dealloc` into a fixed log.  Logs of runs that differ only in the secret
+//! must be identical: any difference is secret-derived data left in a freed block.
 use crate::*;
 use std::alloc::{GlobalAlloc, Layout, System};
-pub struct MonAlloc;
-unsafe impl GlobalAlloc for MonAlloc {
-    unsafe fn alloc(&self, l: Layout) -> *mut u8 { System.alloc(l) }
-    unsafe fn dealloc(&self, p: *mut u8, l: Layout) { System.dealloc(p, l) }
+use std::cell::UnsafeCell;
+use std::mem::ManuallyDrop;
+use std::sync::atomic::{AtomicBool, AtomicUsize, Ordering};
+
+const ARENA_SIZE: usize = 256 << 20;
+const MAX_LOG: usize = 4096;
+const HEAD: usize = 48;
+
+#[derive(Clone, Copy)]
+struct Rec {
+    size: usize,
+    off: usize,
+    hash: u64,
+    head: [u8; HEAD],
 }
-pub fn register(_m: &mut HashMap<&'static str, OpFn>) {}
+
+struct State {
+    base: UnsafeCell<*mut u8>,
+    log: UnsafeCell<[Rec; MAX_LOG]>,
+}
+unsafe impl Sync for State {}
+
+static ACTIVE: AtomicBool = AtomicBool::new(false);
+static TOP: AtomicUsize = AtomicUsize::new(0);
+static NLOG: AtomicUsize = AtomicUsize::new(0);
+static NALLOC: AtomicUsize = AtomicUsize::new(0);
+static OVERFLOW: AtomicBool = AtomicBool::new(false);
+static ST: State = State {
+    base: UnsafeCell::new(std::ptr::null_mut()),
+    log: UnsafeCell::new(
+        [Rec {
+            size: 0,
+            off: 0,
+            hash: 0,
+            head: [0; HEAD],
+        }; MAX_LOG],
+    ),
+};
+
+pub struct MonAlloc;
+
+fn arena_base() -> *mut u8 {
+    unsafe { *ST.base.get() }
+}
+
+fn fnv(b: &[u8]) -> u64 {
+    let mut h: u64 = 0xcbf29ce484222325;
+    for x in b {
+        h ^= *x as u64;
+        h = h.wrapping_mul(0x100000001b3);
+    }
+    h
+}
+
+unsafe impl GlobalAlloc for MonAlloc {
+    unsafe fn alloc(&self, l: Layout) -> *mut u8 {
+        if ACTIVE.load(Ordering::Relaxed) {
+            let base = arena_base();
+            let top = TOP.load(Ordering::Relaxed);
+            let start = (top + l.align() - 1) & !(l.align() - 1);
+            let end = start + l.size();
+            if end > ARENA_SIZE {
+                OVERFLOW.store(true, Ordering::Relaxed);
+                return System.alloc(l);
+            }
+            TOP.store(end, Ordering::Relaxed);
+            NALLOC.fetch_add(1, Ordering::Relaxed);
+            let p = base.add(start);
+            std::ptr::write_bytes(p, 0xA5, l.size());
+            return p;
+        }
+        System.alloc(l)
+    }
+
+    unsafe fn dealloc(&self, p: *mut u8, l: Layout) {
+        let base = arena_base();
+        if !base.is_null() && (p as usize) >= (base as usize) && (p as usize) < (base as usize) + ARENA_SIZE {
+            if ACTIVE.load(Ordering::Relaxed) {
+                let n = NLOG.load(Ordering::Relaxed);
+                if n < MAX_LOG {
+                    let s = std::slice::from_raw_parts(p as *const u8, l.size());
+                    let mut head = [0u8; HEAD];
+                    let k = s.len().min(HEAD);
+                    head[..k].copy_from_slice(&s[..k]);
+                    (*ST.log.get())[n] = Rec {
+                        size: l.size(),
+                        off: p as usize - base as usize,
+                        hash: fnv(s),
+                        head,
+                    };
+                    NLOG.store(n + 1, Ordering::Relaxed);
+                } else {
+                    OVERFLOW.store(true, Ordering::Relaxed);
+                }
+            }
+            // bump arena: memory is reclaimed when the next measured region starts
+            return;
+        }
+        System.dealloc(p, l)
+    }
+}
+
+fn ensure_arena() {
+    unsafe {
+        if (*ST.base.get()).is_null() {
+            let l = Layout::from_size_align(ARENA_SIZE, 4096).expect("layout");
+            *ST.base.get() = System.alloc(l);
+        }
+    }
+}
+
+/// Run `f` in a measured region; returns its result and the dealloc log tokens.
+pub fn measured<T>(f: impl FnOnce() -> T) -> (T, Vec<String>) {
+    ensure_arena();
+    TOP.store(0, Ordering::Relaxed);
+    NLOG.store(0, Ordering::Relaxed);
+    NALLOC.store(0, Ordering::Relaxed);
+    OVERFLOW.store(false, Ordering::Relaxed);
+    ACTIVE.store(true, Ordering::SeqCst);
+    let r = f();
+    ACTIVE.store(false, Ordering::SeqCst);
+    let n = NLOG.load(Ordering::Relaxed);
+    let mut out = Vec::with_capacity(n + 2);
+    out.push(format!(
+        "allocs={}:frees={}:overflow={}",
+        NALLOC.load(Ordering::Relaxed),
+        n,
+        OVERFLOW.load(Ordering::Relaxed) as u8
+    ));
+    for i in 0..n {
+        let r = unsafe { (*ST.log.get())[i] };
+        out.push(format!(
+            "{}@{:x}:{:016x}:{}",
+            r.size,
+            r.off,
+            r.hash,
+            hex(&r.head[..r.size.min(HEAD)])
+        ));
+    }
+    (r, out)
+}
+
+/// bytes of `T`'s storage before and after `drop_in_place`, object living in stack storage
+fn drop_probe<T>(v: T, use_it: impl FnOnce(&T)) -> Out {
+    let mut slot = ManuallyDrop::new(v);
+    use_it(&slot);
+    let n = std::mem::size_of::<T>();
+    let p = &mut *slot as *mut T as *mut u8;
+    let read = |p: *mut u8| -> Vec<u8> { (0..n).map(|i| unsafe { std::ptr::read_volatile(p.add(i)) }).collect() };
+    let before = read(p);
+    unsafe { std::ptr::drop_in_place(&mut *slot as *mut T) };
+    let after = read(p);
+    vec![hex(&before), hex(&after)]
+}
+
+/// same with the object living in a heap box
+fn drop_probe_boxed<T>(v: T, use_it: impl FnOnce(&T)) -> Out {
+    let b = Box::new(v);
+    use_it(&b);
+    let n = std::mem::size_of::<T>();
+    let raw = Box::into_raw(b);
+    let p = raw as *mut u8;
+    let read = |p: *mut u8| -> Vec<u8> { (0..n).map(|i| unsafe { std::ptr::read_volatile(p.add(i)) }).collect() };
+    let before = read(p);
+    unsafe { std::ptr::drop_in_place(raw) };
+    let after = read(p);
+    unsafe { std::alloc::dealloc(p, Layout::new::<T>()) };
+    vec![hex(&before), hex(&after)]
+}
+
+pub fn register(m: &mut HashMap<&'static str, OpFn>) {
+    // mem.msm kind [scalars] [points]   kind: 0 = Edwards ct multiscalar, 1 = Ristretto ct multiscalar
+    m.insert("mem.msm", |a| {
+        use curve25519_dalek::traits::MultiscalarMul;
+        let kind = a.int(0);
+        let scalars = a.sc_list(1);
+        match kind {
+            0 => {
+                let points = a.ed_list(2);
+                let (r, log) = measured(|| EdwardsPoint::multiscalar_mul(scalars.iter(), points.iter()));
+                let mut o = vec![hex(r.compress().as_bytes())];
+                o.extend(log);
+                o
+            }
+            1 => {
+                let points = a.rs_list(2);
+                let (r, log) = measured(|| RistrettoPoint::multiscalar_mul(scalars.iter(), points.iter()));
+                let mut o = vec![hex(r.compress().as_bytes())];
+                o.extend(log);
+                o
+            }
+            _ => panic!("ARG: kind"),
+        }
+    });
+    m.insert("mem.batchinv", |a| {
+        let mut scalars = a.sc_list(0);
+        let (r, log) = measured(|| Scalar::batch_invert(&mut scalars));
+        let mut o = vec![hex(&r.to_bytes())];
+        o.extend(log);
+        o
+    });
+    // control: a vartime multiscalar (no wiping promised) to show the monitor sees secret-dependent frees
+    m.insert("mem.vmsm", |a| {
+        use curve25519_dalek::traits::VartimeMultiscalarMul;
+        let scalars = a.sc_list(0);
+        let points = a.ed_list(1);
+        let (r, log) = measured(|| EdwardsPoint::vartime_multiscalar_mul(scalars.iter(), points.iter()));
+        let mut o = vec![hex(r.compress().as_bytes())];
+        o.extend(log);
+        o
+    });
+    // mem.drop <type> <boxed T/F> <secret bytes> <uses>
+    m.insert("mem.drop", |a| {
+        use ed25519_dalek::hazmat::ExpandedSecretKey;
+        use ed25519_dalek::{Signer, SigningKey};
+        use x25519_dalek::{EphemeralSecret, PublicKey, ReusableSecret, StaticSecret};
+        let ty = a.tok(0);
+        let boxed = a.boolean(1);
+        let sec = a.bytes(2);
+        let uses = a.int(3);
+        macro_rules! probe {
+            ($v:expr, $u:expr) => {
+                if boxed {
+                    drop_probe_boxed($v, $u)
+                } else {
+                    drop_probe($v, $u)
+                }
+            };
+        }
+        let peer = PublicKey::from([9u8; 32]);
+        match ty {
+            "signingkey" => {
+                let s: [u8; 32] = sec.as_slice().try_into().unwrap_or_else(|_| panic!("ARG: len"));
+                probe!(SigningKey::from_bytes(&s), |k: &SigningKey| {
+                    for i in 0..uses {
+                        let _ = k.sign(&[i as u8]);
+                    }
+                    let c = k.clone();
+                    drop(c);
+                })
+            }
+            "expandedsecretkey" => {
+                let s: [u8; 64] = sec.as_slice().try_into().unwrap_or_else(|_| panic!("ARG: len"));
+                probe!(ExpandedSecretKey::from_bytes(&s), |k: &ExpandedSecretKey| {
+                    let vk = ed25519_dalek::VerifyingKey::from(k);
+                    for i in 0..uses {
+                        let _ = ed25519_dalek::hazmat::raw_sign::<sha2::Sha512>(k, &[i as u8], &vk);
+                    }
+                })
+            }
+            "ephemeral" => {
+                let v = EphemeralSecret::random_from_rng(crate::ops_x::FixedRng(sec.clone(), 0));
+                probe!(v, |k: &EphemeralSecret| {
+                    for _ in 0..uses {
+                        let _ = PublicKey::from(k);
+                    }
+                })
+            }
+            "reusable" => {
+                let v = ReusableSecret::random_from_rng(crate::ops_x::FixedRng(sec.clone(), 0));
+                probe!(v, |k: &ReusableSecret| {
+                    for _ in 0..uses {
+                        let _ = k.diffie_hellman(&peer);
+                    }
+                    let c = k.clone();
+                    drop(c);
+                })
+            }
+            "static" => {
+                let s: [u8; 32] = sec.as_slice().try_into().unwrap_or_else(|_| panic!("ARG: len"));
+                probe!(StaticSecret::from(s), |k: &StaticSecret| {
+                    for _ in 0..uses {
+                        let _ = k.diffie_hellman(&peer);
+                    }
+                    let c = k.clone();
+                    drop(c);
+                })
+            }
+            "shared" => {
+                let s: [u8; 32] = sec.as_slice().try_into().unwrap_or_else(|_| panic!("ARG: len"));
+                let st = StaticSecret::from(s);
+                let sh = st.diffie_hellman(&peer);
+                let mut o = vec![hex(sh.as_bytes())];
+                o.extend(probe!(sh, |k: &x25519_dalek::SharedSecret| {
+                    let _ = k.was_contributory();
+                }));
+                o
+            }
+            _ => panic!("ARG: type"),
+        }
+    });
+}
